@@ -56,9 +56,76 @@ func steppingFuncs(c *Ctx) map[*types.Func]bool {
 
 // stepExactlyOnce runs a small forward dataflow over the callback: the state is a set of triples
 // (steps ∈ {0,1,2+}, user iterator called, left through the skip edge).
+// cursorSt is a set of (steps ∈ {0,1,2+}, user iterator called, left through the skip edge) triples.
+type cursorSt = uint16
+
+// prologueSummary: what a local closure that is called as a condition (`if advance() { … }`) does to the cursor
+// state, per boolean result.
+type prologueSummary struct {
+	onTrue, onFalse cursorSt
+	ok              bool
+}
+
 func stepExactlyOnce(info *types.Info, lfg *FlowGraph, lit *ast.FuncLit, cursorObj, iterObj, offsetObj types.Object, stepping map[*types.Func]bool) string {
-	type st = uint16 // bitset over 12 states: steps*4 + called*2 + skipped
+	msg, _, _ := cursorFlow(info, lfg, cursorObj, iterObj, offsetObj, stepping, nil, false)
+	return msg
+}
+
+// compose: the states reachable by running b after a.
+func composeCursorSt(a, b cursorSt) cursorSt {
+	var out cursorSt
+	for i := uint(0); i < 12; i++ {
+		if a&(1<<i) == 0 {
+			continue
+		}
+		for j := uint(0); j < 12; j++ {
+			if b&(1<<j) == 0 {
+				continue
+			}
+			s1, c1, k1 := int(i/4), int(i/2)%2, int(i%2)
+			s2, c2, k2 := int(j/4), int(j/2)%2, int(j%2)
+			s := s1 + s2
+			if s > 2 {
+				s = 2
+			}
+			out |= 1 << uint(s*4+(c1|c2)*2+(k1|k2))
+		}
+	}
+	return out
+}
+
+// cursorFlow runs the forward dataflow. prologues: local closures (by the variable they are bound to) with their
+// summaries; asPrologue: analyse a prologue closure itself (returns are not judged, their states are collected
+// per constant result).
+func cursorFlow(info *types.Info, lfg *FlowGraph, cursorObj, iterObj, offsetObj types.Object, stepping map[*types.Func]bool, prologues map[types.Object]*prologueSummary, asPrologue bool) (string, cursorSt, cursorSt) {
+	type st = cursorSt // bitset over 12 states: steps*4 + called*2 + skipped
 	enc := func(steps, called, skipped int) st { return 1 << uint(steps*4+called*2+skipped) }
+	var retTrue, retFalse st
+	// prologueCond: the block's condition is P() or !P() for a summarised closure P
+	prologueCond := func(b *cfg.Block) (*prologueSummary, bool) {
+		cond, _ := lfg.condOf(b)
+		if cond == nil {
+			return nil, false
+		}
+		neg := false
+		e := ast.Unparen(cond)
+		if u, ok := e.(*ast.UnaryExpr); ok && u.Op == token.NOT {
+			neg, e = true, ast.Unparen(u.X)
+		}
+		call, ok := e.(*ast.CallExpr)
+		if !ok || len(call.Args) != 0 {
+			return nil, false
+		}
+		id, ok := ast.Unparen(call.Fun).(*ast.Ident)
+		if !ok {
+			return nil, false
+		}
+		ps := prologues[info.ObjectOf(id)]
+		if ps == nil || !ps.ok {
+			return nil, false
+		}
+		return ps, neg
+	}
 	isStep := func(n ast.Node) int {
 		k := 0
 		inspectNoLit(n, func(x ast.Node) bool {
@@ -159,7 +226,18 @@ func stepExactlyOnce(info *types.Info, lfg *FlowGraph, lit *ast.FuncLit, cursorO
 			if m != "" && problem == "" {
 				problem = m
 			}
-			if _, ok := n.(*ast.ReturnStmt); ok {
+			if r, ok := n.(*ast.ReturnStmt); ok && asPrologue {
+				if len(r.Results) == 1 {
+					switch boolConst(info, r.Results[0]) {
+					case '1':
+						retTrue |= s
+					case '0':
+						retFalse |= s
+					default:
+						problem = "the prologue closure returns a value that is not a boolean constant"
+					}
+				}
+			} else if ok {
 				for steps := 0; steps < 3; steps++ {
 					for called := 0; called < 2; called++ {
 						for skipped := 0; skipped < 2; skipped++ {
@@ -181,8 +259,18 @@ func stepExactlyOnce(info *types.Info, lfg *FlowGraph, lit *ast.FuncLit, cursorO
 				}
 			}
 		}
+		ps, psNeg := prologueCond(b)
 		for si, sc := range b.Succs {
 			out := s
+			if ps != nil && len(b.Succs) == 2 {
+				// the call ran the closure: compose its effect for the result this edge stands for
+				onTrue := (si == 0) != psNeg
+				if onTrue {
+					out = composeCursorSt(s, ps.onTrue)
+				} else {
+					out = composeCursorSt(s, ps.onFalse)
+				}
+			}
 			if len(b.Succs) == 2 && isSkipEdge(b, si) {
 				var o2 st
 				for i := uint(0); i < 12; i++ {
@@ -201,7 +289,7 @@ func stepExactlyOnce(info *types.Info, lfg *FlowGraph, lit *ast.FuncLit, cursorO
 			}
 		}
 	}
-	return problem
+	return problem, retTrue, retFalse
 }
 
 func ruleCursorProtocol(c *Ctx) {
@@ -309,6 +397,64 @@ func ruleCursorProtocol(c *Ctx) {
 		if offsetObj == nil {
 			continue
 		}
+		// prologue closures: local closures without parameters and with a bool result that step the cursor
+		// (advance := func() (skip bool) { count++; if count <= offset { return true }; nextStep(…); return false })
+		prologues := map[types.Object]*prologueSummary{}
+		prologueLits := map[*ast.FuncLit]bool{}
+		ast.Inspect(fn.Decl.Body, func(x ast.Node) bool {
+			as, ok := x.(*ast.AssignStmt)
+			if !ok || len(as.Lhs) != 1 || len(as.Rhs) != 1 {
+				return true
+			}
+			lit, ok := ast.Unparen(as.Rhs[0]).(*ast.FuncLit)
+			id, ok2 := as.Lhs[0].(*ast.Ident)
+			if !ok || !ok2 || len(lit.Type.Params.List) != 0 || lit.Type.Results == nil || len(lit.Type.Results.List) != 1 {
+				return true
+			}
+			if countAssignments(info, fn.Decl.Body, info.ObjectOf(id)) != 1 {
+				return true
+			}
+			pfg := newFlowGraph(info, lit.Body)
+			msg, onT, onF := cursorFlow(info, pfg, cursorObj, iterObj, offsetObj, stepping, nil, true)
+			if msg == "" && (onT|onF) != 0 {
+				// the closure must be a complete prologue: skipped ⇒ no step, not skipped ⇒ exactly one step, and the
+				// counter is incremented before the offset test
+				enc := func(steps, called, skipped int) cursorSt { return 1 << uint(steps*4+called*2+skipped) }
+				complete := (onT|onF)&^(enc(0, 0, 1)|enc(1, 0, 0)) == 0
+				incBefore := false
+				for _, b := range pfg.G.Blocks {
+					cond, _ := pfg.condOf(b)
+					be, ok := ast.Unparen(cond).(*ast.BinaryExpr)
+					if !ok {
+						continue
+					}
+					for _, side := range []ast.Expr{be.X, be.Y} {
+						if oid, ok := ast.Unparen(side).(*ast.Ident); ok && info.ObjectOf(oid) == offsetObj {
+							other := be.X
+							if side == be.X {
+								other = be.Y
+							}
+							if cid, ok := ast.Unparen(other).(*ast.Ident); ok {
+								for _, inc := range pfg.Find(func(y ast.Node) bool { s, ok := y.(*ast.IncDecStmt); return ok && s.Tok == token.INC }) {
+									if iid, ok := inc.Node.(*ast.IncDecStmt).X.(*ast.Ident); ok && info.ObjectOf(iid) == info.ObjectOf(cid) && pfg.Dominates(inc, Loc{b, len(b.Nodes) - 1, nil}) {
+										incBefore = true
+									}
+								}
+							}
+						}
+					}
+				}
+				pkey := name + "/prologue-" + id.Name
+				if complete && incBefore {
+					prologues[info.ObjectOf(id)] = &prologueSummary{onTrue: onT, onFalse: onF, ok: true}
+					prologueLits[lit] = true
+					c.ok(pkey, lit.Pos(), true, "count++ → offset test → one cursor step for an item that is not skipped, none for a skipped one")
+				} else {
+					c.bad(pkey, lit.Pos(), "the closure that counts and steps for the callbacks does not step exactly once for an item past the offset and not at all for a skipped one, or tests the offset before counting")
+				}
+			}
+			return true
+		})
 		// (2..4) per-item callbacks that invoke the user iterator
 		ncb := 0
 		ast.Inspect(fn.Decl.Body, func(x ast.Node) bool {
@@ -333,7 +479,24 @@ func ruleCursorProtocol(c *Ctx) {
 			incs := lfg.Find(func(y ast.Node) bool { s, ok := y.(*ast.IncDecStmt); return ok && s.Tok == token.INC })
 			nexts := lfg.FindCalls(func(f *types.Func, call *ast.CallExpr) bool { return isFunc(f, colPath, "nextStep") })
 			var problems []string
-			for _, ic := range calls {
+			// a callback that runs a prologue closure: the closure holds the count / skip / step sequence (checked
+			// below, once per closure) and the composed dataflow decides this callback
+			usesPrologue := false
+			inspectNoLit(lit.Body, func(y ast.Node) bool {
+				if call, ok := y.(*ast.CallExpr); ok {
+					if id, ok := ast.Unparen(call.Fun).(*ast.Ident); ok && prologues[info.ObjectOf(id)] != nil {
+						usesPrologue = true
+					}
+				}
+				return true
+			})
+			shapeTargets := calls
+			shapeFG := lfg
+			if usesPrologue {
+				shapeTargets = nil
+			}
+			for _, ic := range shapeTargets {
+				lfg := shapeFG
 				// the skip test: a dominating fact !(count <= offset)
 				var countObj types.Object
 				skipOK := false
@@ -407,10 +570,12 @@ func ruleCursorProtocol(c *Ctx) {
 			}
 			// exactly-once: along every path through the callback the cursor is stepped 0 times when the item
 			// is skipped by the offset test, and exactly once otherwise, before the user iterator is called
-			if msg := stepExactlyOnce(info, lfg, lit, cursorObj, iterObj, offsetObj, stepping); msg != "" {
+			if msg, _, _ := cursorFlow(info, lfg, cursorObj, iterObj, offsetObj, stepping, prologues, false); msg != "" {
 				problems = append(problems, msg)
 			}
-			if len(problems) == 0 {
+			if len(problems) == 0 && usesPrologue {
+				c.ok(key, lit.Pos(), true, "prologue closure (count++ → skip → nextStep) → user iterator: exactly one step for an item that is not skipped, none for a skipped one")
+			} else if len(problems) == 0 {
 				c.ok(key, lit.Pos(), true, "count++ → skip while count <= offset → nextStep → user iterator")
 			} else {
 				c.bad(key, lit.Pos(), "%s", strings.Join(problems, "; "))
